@@ -526,6 +526,10 @@ Inductive op :=
 | OpX (t : tid) (time : N) (rpl : list byte)   (* mcount_exit in thread t, saved return value bytes *)
 | OpEnd (t : tid)                (* thread exit: mtd_dtor -> shmem_finish *)
 | OpExec (t : tid)               (* the task execs: new image, new session, empty rstack *)
+| OpExecE (t : tid) (k time : N) (pl : list byte)   (* exec, then the first hook call of the new image (libmcount
+                                    prepares the thread lazily: REC_START and TASK_START are sent then) *)
+| OpFork (p ch : tid)            (* fork in thread p: the child ch gets its buffers at once (atfork child handler),
+                                    inherits the frames, all marked written *)
 | OpFail (n : nat)               (* the next n shm_open(O_CREAT) fail *)
 | OpM                            (* recorder: next REC_START/REC_END/LOST message *)
 | OpW (w : nat)                  (* writer w: from its gate to the next gate *)
@@ -723,6 +727,19 @@ Definition exec_op (c : cfg) (sd : st * drv) (o : op) : option (st * drv) :=
                                           img := upd (upd (img d) (t, n) []) (t, S n) [] |})
                 | None => None
                 end
+  | OpExecE t k time pl =>
+      match p_exec s t with
+      | Some s' => let n := nbuf s t in
+                   Some (s', {| stacks := updt (stacks d) t [{| fk := k; ftime := time; fwritten := false; fpl := pl |}];
+                                failn := failn d; base := base d; img := upd (upd (img d) (t, n) []) (t, S n) [] |})
+      | None => None
+      end
+  | OpFork p ch =>
+      match p_start s ch with
+      | Some s' => Some (s', set_stack d ch (map (fun f => {| fk := fk f; ftime := ftime f; fwritten := true; fpl := fpl f |})
+                                               (stacks d p)))
+      | None => None
+      end
   | OpFail n => Some (s, {| stacks := stacks d; failn := n; base := base d; img := img d |})
   | OpM => match chan s with [] => Some (s, d) | _ => match m_msg s with Some s' => Some (s', d) | None => None end end
   | OpW w => match exec_w s w with Some s' => Some (s', d) | None => None end
